@@ -105,7 +105,7 @@ STRENGTHENED.update({
  "C08-r2m1": "assertion C08.misuse-has-no-effect.commit, job txn-2-rmw-vs-use-after-commit",
  "C08-r2m2": "harness VH_C08_CloseBacklog",
  "C10-r2m1": "harness VH_C16_Recover with the real filter (job c10-recovered-realfilter)",
- "C11-r2m1": "NOT detected: the s2 writer is a boundary model of the engine; a shared third-party writer is outside what it can execute (the check ends with an infrastructure error, exit 2, on this change)",
+ "C11-r2m1": "the s2 model got Writer.Reset and treats a writer's state as one race-monitor location; new harness VH_C11_Conc (two goroutines encoding at once, race monitor, schedules with preemption points also at sync.Pool Get/Put); the race is confirmed by go test -race",
  "C11-r2m2": "engine: range over a string now decodes UTF-8 on symbolic bytes (it treated bytes as runes)",
  "C12-r2m1": "old-snapshot reader jobs (reader begun before and reading after the second commit while its flush is under way, preemption bound 2, zone from the second commit)",
  "C13-r2m1": "engine: a select whose chosen case is a send recorded two events, the gated confirmation diverged (the engine had found the counterexample)",
